@@ -1,5 +1,8 @@
 use fbverif::engine::{install_panic_hook, Ctx, Tier};
 
+#[global_allocator]
+static ALLOC: fbverif::sandbox::CountingAlloc = fbverif::sandbox::CountingAlloc;
+
 fn usage() -> ! {
 	eprintln!("usage: check <ID> [--tier quick|thorough] [--replay FILE] [--strict]");
 	std::process::exit(2)
@@ -35,6 +38,24 @@ fn main() {
 				replay = Some(args.get(i).cloned().unwrap_or_else(|| usage()));
 			}
 			"--strict" => strict = true,
+			"--child" => {
+				// sandboxed child of C16: --child <shard> <nshards> <start>
+				let n = |k: usize| args.get(i + k).and_then(|s| s.parse::<u64>().ok()).unwrap_or_else(|| usage());
+				let seed: u64 = std::env::var("VERIF_SEED").ok().and_then(|s| s.trim().parse::<i128>().ok()).map(|v| v as u64).unwrap_or(1);
+				install_panic_hook();
+				fbverif::props::c16::child(seed, tier, n(1) as usize, n(2) as usize, n(3));
+			}
+			"--dump-hostile" => {
+				fbverif::props::c16::dump_hostile();
+				std::process::exit(0);
+			}
+			"--child-one" => {
+				let path = args.get(i + 1).cloned().unwrap_or_else(|| usage());
+				let text = std::fs::read_to_string(&path).unwrap_or_default();
+				let v: serde_json::Value = serde_json::from_str(&text).unwrap_or_default();
+				install_panic_hook();
+				fbverif::props::c16::child_one(&v["case"]);
+			}
 			_ => usage(),
 		}
 		i += 1;
